@@ -92,6 +92,12 @@ fn alphabet(c0: u32, c1: u32, tier: &str, reduced: bool) -> Vec<Op> {
     a
 }
 
+fn prelude_aligned() -> Vec<Op> {
+    let mut p = prelude();
+    p[4] = Op::Open { d: 0, name: 26, mode: M_APPEND, f: 0 }; // ALGN.DAT: exactly three clusters
+    p
+}
+
 fn prelude() -> Vec<Op> {
     vec![
         Op::OpenVol { v: 0 },
@@ -149,6 +155,24 @@ fn scenarios(tier: &str) -> Vec<(String, ScenMaker)> {
             Box::new(move || {
                 let cfg = make_cfg(two_volume_device(2, 1), front, false);
                 Scenario::new(&n2, cfg, prelude(), alphabet(1024, 512, &t2, false), depth)
+            }),
+        ));
+    }
+    {
+        let depth = if tier == "quick" { 3 } else { 4 };
+        let name = format!("three-files-two-volumes/aligned-file/{}", tier);
+        let (n2, t2) = (name.clone(), tier_s.clone());
+        out.push((
+            name,
+            Box::new(move || {
+                let cfg = make_cfg(two_volume_device(2, 1), Front::Raw, false);
+                let mut a = alphabet(1024, 512, &t2, false);
+                for op in a.iter_mut() {
+                    if let Op::Open { d: 0, name: 2, mode, f: 0 } = *op {
+                        *op = Op::Open { d: 0, name: 26, mode, f: 0 };
+                    }
+                }
+                Scenario::new(&n2, cfg, prelude_aligned(), a, depth)
             }),
         ));
     }
@@ -234,7 +258,7 @@ pub fn def() -> HistProp {
         level: "model_checking",
         scenarios,
         oracles,
-        budget_s: |t| if t == "quick" { 40 } else { 3000 },
+        budget_s: |t| if t == "quick" { 40 } else { 1200 },
         max_states: 6_000_000,
         assumptions: &[
             "payload bytes come from a pattern keyed by (file slot, write sequence, absolute offset)",
